@@ -3,13 +3,17 @@
 # check of its property there; prints one line per seed (DETECTED / MISSED / UNDECIDED).
 # Nothing is written to /repo; outputs go to a scratch directory outside /verif.
 export GOFLAGS=-mod=mod GOPROXY=off GOSUMDB=off GOTOOLCHAIN=local
-wt=${SELFTEST_WT:-/tmp/govc_selftest_wt}
-out=${SELFTEST_OUT:-/tmp/govc_selftest_out}
+# SHARD=i NSHARD=n selects every n-th seed starting at i (0-based) so that several runs can share the work.
+shard=${SHARD:-0}; nshard=${NSHARD:-1}
+wt=${SELFTEST_WT:-/tmp/govc_selftest_wt}$shard
+out=${SELFTEST_OUT:-/tmp/govc_selftest_out}$shard
 git -C /repo worktree remove --force $wt 2>/dev/null
 git -C /repo worktree add -q --detach $wt HEAD || exit 2
 mkdir -p $out
 ids="$@"; [ -z "$ids" ] && ids=$(ls /verif/seeded)
+n=-1
 for id in $ids; do
+  n=$((n+1)); [ $((n % nshard)) -eq $shard ] || continue
   prop=$(python3 -c "import json;print(json.load(open('/verif/seeded/$id/meta.json'))['property'])")
   (cd $wt && git checkout -q -- . && git apply /verif/seeded/$id/patch.diff) || { echo "$id APPLY-FAIL"; continue; }
   res=$(/verif/bin/govc check -property $prop -tier quick -repo $wt -outdir $out 2>&1); rc=$?
